@@ -168,12 +168,13 @@ theorem parseLines_forall {P : Stmt → Prop} (hP : ∀ l s, parseLine l = .ok (
 
 /-- ... and for every statement of the INCLUDE expansion -/
 theorem expand_forall {P : Stmt → Prop} (hP : ∀ l s, parseLine l = .ok (some s) → P s) (fs : Files) :
-    ∀ (n : Nat) (ss r : List Stmt), (∀ s ∈ ss, P s) → expand fs n ss = .ok r → ∀ s ∈ r, P s := by
+    ∀ (n : Nat) (inc : List Str) (ss r : List Stmt), (∀ s ∈ ss, P s) → expand fs n inc ss = .ok r →
+      ∀ s ∈ r, P s := by
   intro n
   induction n with
-  | zero => intro ss r _ h; rw [expand_zero] at h; cases h
+  | zero => intro inc ss r _ h; rw [expand_zero] at h; cases h
   | succ n ih =>
-    intro ss
+    intro inc ss
     induction ss with
     | nil => intro r _ h s hs; rw [expand_succ, go_nil] at h; cases h; simp at hs
     | cons x rest ihr =>
@@ -181,27 +182,20 @@ theorem expand_forall {P : Stmt → Prop} (hP : ∀ l s, parseLine l = .ok (some
       rw [expand_succ, go_cons] at h
       obtain ⟨a, b, ha, hb, rfl⟩ := oapp_eq_ok h
       rcases List.mem_append.mp hs with hs | hs
-      · by_cases hinc : (x.row.isInclude && !x.operand.text.isEmpty) = true
-        · cases hf : fs.get? x.operand.text with
-          | none => rw [expandOne_missing hinc hf] at ha; cases ha
-          | some lines =>
-            rw [expandOne_some hinc hf] at ha
-            cases hp : parseLines lines with
-            | ok inc =>
-              rw [hp] at ha
-              exact ih inc a (parseLines_forall hP lines inc hp) ha s hs
-            | _ => rw [hp] at ha; cases ha
-        · rw [expandOne_plain (by simpa using hinc)] at ha
-          cases ha
+      · rcases expandOne_cases fs n inc x with ⟨_, h0⟩ | ⟨_, _, h0⟩ | ⟨_, _, lines, p, _, hp, h0⟩ <;>
+          rw [h0] at ha
+        · cases ha
           simp at hs; subst hs
           exact hss s (by simp)
+        · cases ha
+        · exact ih _ p a (parseLines_forall hP lines p hp) ha s hs
       · exact ihr b (fun y hy => hss y (by simp [hy])) (by rw [expand_succ]; exact hb) s hs
 
 theorem front_forall {P : Stmt → Prop} (hP : ∀ l s, parseLine l = .ok (some s) → P s) {fs : Files}
     {ls : List Str} {r : List Stmt} (h : front fs ls = .ok r) : ∀ s ∈ r, P s := by
   unfold front at h
   cases hp : parseLines ls with
-  | ok p => rw [hp] at h; exact expand_forall hP fs 64 p r (parseLines_forall hP ls p hp) h
+  | ok p => rw [hp] at h; exact expand_forall hP fs 64 [] p r (parseLines_forall hP ls p hp) h
   | _ => rw [hp] at h; cases h
 
 /-! ### where branch target indices come from -/
@@ -492,6 +486,6 @@ theorem assemble_prefix {fs : Files} {ls ext : List Str} {A B : Assembly}
 /-- a program without INCLUDE statements expands to itself -/
 theorem front_plain {fs : Files} {ls : List Str} {p : List Stmt} (hp : parseLines ls = .ok p)
     (hpl : ∀ s ∈ p, s.row.isInclude = false) : front fs ls = .ok p := by
-  unfold front; rw [hp]; exact expand_plain fs 63 p hpl
+  unfold front; rw [hp]; exact expand_plain fs 63 [] p hpl
 
 end CoCo.Asm
